@@ -233,6 +233,30 @@ impl History {
     }
 }
 
+/// Whether a shape token describes a step that changes what must be offered (class before and
+/// after differ, or an offered server is deleted / replaced, or a fault with such a change).
+pub fn token_is_nontrivial(token: &str) -> bool {
+    if let Some(rest) = token.strip_prefix("F[") {
+        return rest
+            .trim_end_matches(']')
+            .split(['|', ','])
+            .skip(1)
+            .any(token_is_nontrivial);
+    }
+    let t = token.trim_start_matches('I');
+    match t.split_once(':') {
+        Some(("D", class)) => class == "Ready" || class == "Allocated",
+        Some((_, tr)) => match tr.split_once('>') {
+            Some((a, b)) => {
+                let offered = |c: &str| c == "Ready" || c == "Allocated";
+                offered(a) || offered(b)
+            }
+            None => false,
+        },
+        None => false,
+    }
+}
+
 // ------------------------------------------------------------------------------------------------
 // generator
 
